@@ -72,26 +72,26 @@ Qed.
 Section Whole.
   Context {T : Type} {NT : Num T}.
 
-  Lemma frac_numch a b : @wf_frac T NT a b = true ->
+  Lemma frac_numch neg a b : @wf_frac T NT neg a b = true ->
     forallb numch (render_dec a ++ c_slash :: render_dec b) = true.
   Proof.
     intros H. apply wf_frac_parts in H as (Ha & Hb & _). rewrite forallb_app. cbn [forallb].
     rewrite (decch_numch _ (render_dec_decch a Ha)), (decch_numch _ (render_dec_decch b Hb)). reflexivity.
   Qed.
-  Lemma render_coef_numch oc : @wf_ocoef T NT oc = true -> forallb numch (render_coef oc) = true.
+  Lemma render_coef_numch neg oc : @wf_ocoef T NT neg oc = true -> forallb numch (render_coef oc) = true.
   Proof.
     destruct oc as [[d|a b]|]; cbn [wf_ocoef wf_coef render_coef]; intros H.
-    - apply decch_numch, render_dec_decch, H.
-    - apply frac_numch, H.
+    - apply andb_prop in H as [H _]. apply decch_numch, render_dec_decch, H.
+    - apply (frac_numch neg), H.
     - reflexivity.
   Qed.
   Lemma render_emag_numch neg m : @wf_expo T NT (neg, m) = true ->
     forallb numch (render_emag m) = true /\ render_emag m <> [].
   Proof.
-    unfold wf_expo. cbn [snd]. destruct m as [d|a b]; cbn [render_emag]; intros H.
-    - split; [apply decch_numch, render_dec_decch, H|].
+    unfold wf_expo. cbn [fst snd]. destruct m as [d|a b]; cbn [render_emag]; intros H.
+    - apply andb_prop in H as [H _]. split; [apply decch_numch, render_dec_decch, H|].
       destruct (render_dec_head d H) as (c & r & E & _). rewrite E. discriminate.
-    - split; [apply frac_numch, H|]. destruct (render_dec a); discriminate.
+    - split; [apply (frac_numch neg), H|]. destruct (render_dec a); discriminate.
   Qed.
 
   Lemma wf_var_parts l oe : @wf_var T NT (l, oe) = true ->
@@ -121,11 +121,11 @@ Section Whole.
     - cbn [app]. apply IH. exact Hw.
   Qed.
 
-  Lemma render_term_clean t : @wf_term T NT t = true -> clean false (render_term t) = true.
+  Lemma render_term_clean x : @wf_term T NT x = true -> clean false (render_term (snd x)) = true.
   Proof.
     intros H. apply wf_term_parts in H as (Hc & Hv & _). unfold render_term.
-    rewrite (clean_plain _ _ (numch_plain _ (render_coef_numch _ Hc))).
-    rewrite <- (app_nil_r (render_vars (snd t))), (render_vars_clean _ [] Hv). reflexivity.
+    rewrite (clean_plain _ _ (numch_plain _ (render_coef_numch _ _ Hc))).
+    rewrite <- (app_nil_r (render_vars (snd (snd x)))), (render_vars_clean _ [] Hv). reflexivity.
   Qed.
 
   Lemma render_vars_tch vs : forallb (@wf_var T NT) vs = true -> forallb tch (render_vars vs) = true.
@@ -139,26 +139,27 @@ Section Whole.
     destruct neg; reflexivity.
   Qed.
 
-  Lemma render_term_tch t : @wf_term T NT t = true -> forallb tch (render_term t) = true.
+  Lemma render_term_tch x : @wf_term T NT x = true -> forallb tch (render_term (snd x)) = true.
   Proof.
     intros H. apply wf_term_parts in H as (Hc & Hv & _). unfold render_term.
-    rewrite forallb_app, (numch_tch _ (render_coef_numch _ Hc)), (render_vars_tch _ Hv). reflexivity.
+    rewrite forallb_app, (numch_tch _ (render_coef_numch _ _ Hc)), (render_vars_tch _ Hv). reflexivity.
   Qed.
 
-  Lemma render_signed_tch x : @wf_term T NT (snd x) = true -> forallb tch (render_signed x) = true.
+  Lemma render_signed_tch x : @wf_term T NT x = true -> forallb tch (render_signed x) = true.
   Proof.
     intros H. unfold render_signed. rewrite forallb_app, (render_term_tch _ H).
     destruct (fst x); reflexivity.
   Qed.
 
   (* first character of a term: a digit, '.', or a letter — never '-' *)
-  Lemma render_term_head t : @wf_term T NT t = true ->
-    exists c r, render_term t = c :: r /\ N.eqb c c_minus = false.
+  Lemma render_term_head x : @wf_term T NT x = true ->
+    exists c r, render_term (snd x) = c :: r /\ N.eqb c c_minus = false.
   Proof.
-    intros H. apply wf_term_parts in H as (Hc & Hv & Hne). unfold render_term.
-    destruct t as [oc vs]. cbn [fst snd] in *.
+    intros H. apply wf_term_parts in H as (Hc & Hv & Hne & _). unfold render_term.
+    destruct x as [neg [oc vs]]. cbn [fst snd] in *.
     destruct oc as [[d|a b]|]; cbn [render_coef wf_ocoef wf_coef] in *.
-    - destruct (render_dec_head d Hc) as (c & r & E & Hd). rewrite E. cbn [app].
+    - apply andb_prop in Hc as [Hc _].
+      destruct (render_dec_head d Hc) as (c & r & E & Hd). rewrite E. cbn [app].
       eexists _, _. split; [reflexivity|]. exact (decch_not c c_minus Hd eq_refl).
     - apply wf_frac_parts in Hc as (Ha & _).
       destruct (render_dec_head a Ha) as (c & r & E & Hd). rewrite E. cbn [app].
@@ -169,7 +170,7 @@ Section Whole.
       exact (proj1 (letter_plain l Hl)).
   Qed.
 
-  Lemma render_signed_good x : @wf_term T NT (snd x) = true -> bad_part (render_signed x) = false.
+  Lemma render_signed_good x : @wf_term T NT x = true -> bad_part (render_signed x) = false.
   Proof.
     intros H. destruct (render_term_head _ H) as (c & r & E & Hc). unfold render_signed. rewrite E.
     destruct (fst x); cbn [sign_str app bad_part].
@@ -188,14 +189,15 @@ Section Whole.
     protect_minus false (render_tail rest) = flat_map (fun q => c_plus :: q) (map render_signed rest).
   Proof.
     induction rest as [|[n t] rest IH]; intros H; [reflexivity|].
-    cbn [wf_src forallb snd] in H. apply andb_prop in H as [Ht Hr].
+    cbn [wf_src forallb] in H. apply andb_prop in H as [Ht Hr].
+    pose proof (render_term_clean (n, t) Ht) as Hcl. cbn [snd] in Hcl.
     cbn [render_tail flat_map map fst snd]. fold (render_tail rest).
     unfold render_signed at 1. cbn [fst snd].
     destruct n; cbn [sign_str app protect_minus].
     - change (N.eqb c_minus c_minus) with true. cbn iota. cbn [app].
-      rewrite (protect_clean _ false _ (render_term_clean t Ht)), (IH Hr). reflexivity.
+      rewrite (protect_clean _ false _ Hcl), (IH Hr). reflexivity.
     - change (N.eqb c_plus c_minus) with false. cbn iota. change (N.eqb c_plus c_caret) with false.
-      rewrite (protect_clean _ false _ (render_term_clean t Ht)), (IH Hr). reflexivity.
+      rewrite (protect_clean _ false _ Hcl), (IH Hr). reflexivity.
   Qed.
 
   Lemma join_flat c ps : forall p, join c (p :: ps) = p ++ flat_map (fun q => c :: q) ps.
@@ -213,18 +215,19 @@ Section Whole.
     = (if lead_plus lead src then [c_plus] else []) ++ join c_plus (map render_signed src).
   Proof.
     destruct src as [|[n t] rest]; intros H; [reflexivity|].
-    cbn [wf_src forallb snd] in H. apply andb_prop in H as [Ht Hr].
+    cbn [wf_src forallb] in H. apply andb_prop in H as [Ht Hr].
+    pose proof (render_term_clean (n, t) Ht) as Hcl. cbn [snd] in Hcl.
     rewrite render_cons. cbn [map lead_plus]. rewrite join_flat.
     unfold render_signed at 1. cbn [fst snd].
     destruct n; [|destruct lead]; cbn [orb sign_str app protect_minus].
     - change (N.eqb c_minus c_minus) with true. cbn iota. cbn [app].
-      rewrite (protect_clean _ false _ (render_term_clean t Ht)), (protect_tail rest Hr). reflexivity.
+      rewrite (protect_clean _ false _ Hcl), (protect_tail rest Hr). reflexivity.
     - change (N.eqb c_plus c_minus) with false. cbn iota. change (N.eqb c_plus c_caret) with false.
-      rewrite (protect_clean _ false _ (render_term_clean t Ht)), (protect_tail rest Hr). reflexivity.
-    - rewrite (protect_clean _ false _ (render_term_clean t Ht)), (protect_tail rest Hr). reflexivity.
+      rewrite (protect_clean _ false _ Hcl), (protect_tail rest Hr). reflexivity.
+    - rewrite (protect_clean _ false _ Hcl), (protect_tail rest Hr). reflexivity.
   Qed.
 
-  Lemma wf_src_Forall src : @wf_src T NT src = true <-> Forall (fun x => @wf_term T NT (snd x) = true) src.
+  Lemma wf_src_Forall src : @wf_src T NT src = true <-> Forall (fun x => @wf_term T NT x = true) src.
   Proof. unfold wf_src. rewrite forallb_forall, Forall_forall. reflexivity. Qed.
 
   Lemma parts_of_normal (b : bool) src : @wf_src T NT src = true -> (src = [] -> b = false) ->
@@ -258,8 +261,9 @@ Section Whole.
   Lemma render_lacks_at lead src : @wf_src T NT src = true -> lacks c_at (render lead src) = true.
   Proof.
     destruct src as [|[n t] rest]; intros H; [reflexivity|].
-    cbn [wf_src forallb snd] in H. apply andb_prop in H as [Ht Hr].
-    rewrite render_cons, !lacks_app. rewrite (tch_lacks _ c_at (render_term_tch t Ht) eq_refl).
+    cbn [wf_src forallb] in H. apply andb_prop in H as [Ht Hr].
+    pose proof (render_term_tch (n, t) Ht) as Htc. cbn [snd] in Htc.
+    rewrite render_cons, !lacks_app. rewrite (tch_lacks _ c_at Htc eq_refl).
     replace (lacks c_at (render_tail rest)) with true.
     - destruct n; [|destruct lead]; reflexivity.
     - symmetry. unfold lacks, render_tail. apply forallb_flat_map. intros x Hx.
@@ -496,8 +500,17 @@ Section Converse.
       exists false, d. auto.
   Qed.
 
+  Lemma parse_dec_finite_inv s v : @parse_dec_finite T NT s = Some v ->
+    exists neg d, wf_dec d = true /\ s = sign_str neg ++ render_dec d /\ v = signed neg (dec_val d) /\
+                  finite (@signed T NT neg (dec_val d)) = true.
+  Proof.
+    unfold parse_dec_finite. intros H. destruct (parse_dec s) as [u|] eqn:E; [|discriminate].
+    destruct (is_finite u) eqn:Ef; [|discriminate]. injection H as <-.
+    destruct (parse_dec_inv s u E) as (neg & d & Hd & Es & ->). exists neg, d. auto.
+  Qed.
+
   Lemma parse_fraction_inv s v : minus_ok true s = true -> @parse_fraction T NT s = Some v ->
-    exists neg a b, @wf_frac T NT a b = true /\
+    exists neg a b, @wf_frac T NT neg a b = true /\
       s = sign_str neg ++ render_dec a ++ c_slash :: render_dec b /\
       v = ndiv (signed neg (dec_val a)) (dec_val b).
   Proof.
@@ -506,17 +519,18 @@ Section Converse.
     cbn in J. subst s.
     destruct (parse_dec x) as [vx|] eqn:Ex; [|discriminate].
     destruct (parse_dec y) as [vy|] eqn:Ey; [|discriminate].
-    destruct (nneb vy n0) eqn:En; [|discriminate]. injection H as <-.
+    destruct (nneb vy n0 && is_finite vy && is_finite (ndiv vx vy)) eqn:En; [|discriminate]. injection H as <-.
+    apply andb_prop in En as [En Ef2]. apply andb_prop in En as [En Ef1].
     destruct (parse_dec_inv x vx Ex) as (neg & a & Ha & -> & ->).
     destruct (parse_dec_inv y vy Ey) as (neg' & b & Hb & -> & ->).
     destruct neg'.
     - exfalso. cbn [sign_str app] in Hm. apply minus_ok_mid in Hm. discriminate.
-    - cbn [sign_str app signed] in *. exists neg, a, b. unfold wf_frac. rewrite Ha, Hb, En.
-      rewrite <- app_assoc. auto.
+    - cbn [sign_str app signed] in *. exists neg, a, b. unfold wf_frac, finite. unfold is_finite in Ef1, Ef2.
+      rewrite Ha, Hb, En, Ef1, Ef2. rewrite <- app_assoc. auto.
   Qed.
 
   Lemma inter_coeff_inv cs c : minus_ok true cs = true -> @inter_coeff T NT cs = Ok c ->
-    exists neg oc, @wf_ocoef T NT oc = true /\ cs = sign_str neg ++ render_coef oc /\ c = coef_val neg oc.
+    exists neg oc, @wf_ocoef T NT neg oc = true /\ cs = sign_str neg ++ render_coef oc /\ c = coef_val neg oc.
   Proof.
     intros Hm H. destruct cs as [|x r].
     - injection H as <-. exists false, None. auto.
@@ -527,9 +541,9 @@ Section Converse.
         * destruct (parse_fraction (x :: r)) as [v|] eqn:E; [|discriminate]. injection H as <-.
           destruct (parse_fraction_inv _ v Hm E) as (neg & a & b & Hw & Es & ->).
           exists neg, (Some (CFrac a b)). auto.
-        * destruct (parse_dec (x :: r)) as [v|] eqn:E; [|discriminate]. injection H as <-.
-          destruct (parse_dec_inv _ v E) as (neg & d & Hd & Es & ->).
-          exists neg, (Some (CDec d)). auto.
+        * destruct (parse_dec_finite (x :: r)) as [v|] eqn:E; [|discriminate]. injection H as <-.
+          destruct (parse_dec_finite_inv _ v E) as (neg & d & Hd & Es & -> & Hf).
+          exists neg, (Some (CDec d)). cbn [wf_ocoef wf_coef]. rewrite Hd, Hf. auto.
   Qed.
 
   Lemma inter_pow_inv ps p : minus_ok true ps = true -> @inter_pow T NT ps = Ok p ->
@@ -539,9 +553,9 @@ Section Converse.
     - destruct (parse_fraction ps) as [v|] eqn:E; [|discriminate]. injection H as <-.
       destruct (parse_fraction_inv _ v Hm E) as (neg & a & b & Hw & Es & ->).
       exists (neg, EFrac a b). auto.
-    - destruct (parse_dec ps) as [v|] eqn:E; [|discriminate]. injection H as <-.
-      destruct (parse_dec_inv _ v E) as (neg & d & Hd & Es & ->).
-      exists (neg, EDec d). auto.
+    - destruct (parse_dec_finite ps) as [v|] eqn:E; [|discriminate]. injection H as <-.
+      destruct (parse_dec_finite_inv _ v E) as (neg & d & Hd & Es & -> & Hf).
+      exists (neg, EDec d). unfold wf_expo. cbn [fst snd]. rewrite Hd, Hf. auto.
   Qed.
 
   (* ---- variables -------------------------------------------------------------------- *)
@@ -581,21 +595,27 @@ Section Converse.
   (* ---- one part ------------------------------------------------------------------------ *)
   Lemma inter_term_inv part t : minus_ok true part = true -> bad_part part = false ->
     @inter_term T NT U part = Ok t ->
-    exists x, @wf_term T NT (snd x) = true /\ part = render_signed x /\ t = term_of x.
+    exists x, @wf_term T NT x = true /\ part = render_signed x /\ t = term_of x.
   Proof.
     unfold inter_term. intros Hm Hb H.
     destruct (scan_coeff U true part) as [cs rest] eqn:Es. apply scan_coeff_split in Es. subst part.
     destruct (inter_coeff cs) as [c|e|w] eqn:Ec; try discriminate.
     destruct (scan_vars (length rest) rest []) as [vs|e|w] eqn:Ev; try discriminate.
+    destruct (forallb (fun vp : name * T => is_finite (snd vp)) (merge_vars (sort_vars vs) [])) eqn:Ef;
+      [|discriminate].
     injection H as <-.
     destruct (inter_coeff_inv cs c (minus_ok_app_l _ _ _ Hm) Ec) as (neg & oc & Hoc & -> & ->).
     destruct (scan_vars_inv _ rest [] vs (le_n _) (minus_ok_app_r _ _ _ Hm) Ev) as (vl & Hvl & -> & ->).
-    exists (neg, (oc, vl)). cbn [snd fst rev app]. split; [|split].
-    - unfold wf_term. cbn [fst snd]. unfold wf_ocoef in Hoc. rewrite Hoc, Hvl. cbn [andb].
+    cbn [rev app] in Ef |- *. rewrite merge_sort_canon in Ef |- *.
+    exists (neg, (oc, vl)). split; [|split].
+    - unfold wf_term, term_of. cbn [fst snd t_vars]. unfold wf_ocoef in Hoc. rewrite Hoc, Hvl. cbn [andb].
+      replace (forallb (fun vp : name * T => finite (snd vp)) (canon_vars (map var_val vl))) with true
+        by (symmetry; exact Ef).
+      rewrite andb_true_r.
       destruct oc; [reflexivity|]. destruct vl; [|reflexivity].
       exfalso. destruct neg; discriminate.
     - unfold render_signed, render_term. cbn [fst snd]. rewrite app_assoc. reflexivity.
-    - unfold term_of. cbn [fst snd]. rewrite merge_sort_canon. reflexivity.
+    - reflexivity.
   Qed.
 
   Lemma parts_inv parts : forall ts, Forall (fun q => minus_ok true q = true) parts ->
